@@ -106,3 +106,106 @@ Qed.
 Example C12_rename_nonvacuous :
   ren_body (swap 1%N 7%N) [SLet 1%N (ELit TInt); SReturn (EVar 1%N)] = [SLet 7%N (ELit TInt); SReturn (EVar 7%N)].
 Proof. vm_compute. reflexivity. Qed.
+
+(* ================================================================== *)
+(* The checker model WITH the catch-scope stack (Model/C12_Scopes.v): throw signatures of methods and
+   closure literals, `throw`, do/catch, calls of throwing methods and closures, block bodies.
+   S = the model, SP = its proofs. *)
+Require Elk.Model.C12_Scopes Elk.Proofs.C12_Scopes.
+Module S := Elk.Model.C12_Scopes.
+Module SP := Elk.Proofs.C12_Scopes.
+
+(* Inserting `x := v` - v a value literal or a SELF-CONTAINED closure literal: any parameters (usable in
+   its body), any declared return type, any declared throw type, `throw`s covered by its own catch
+   scopes, do/catch blocks and further such closures nested to any depth (S.closed_value) - in front of
+   ANY statement of ANY block of a method body (the body itself, a do body, a catch handler, the body of
+   a closure literal, to any depth: S.ins_b), x not occurring in the body, leaves the number of
+   diagnostics and hence the verdict unchanged - in particular when the insertion point lies inside a
+   `do ... catch` body or inside a method with a throw signature and a throw / throwing call follows. *)
+Theorem C12_unused_local_scoped : forall ms1 n rt u body body' ms2 mn x v,
+  S.closed_value v = true -> ~ In x (S.block_names body) -> S.ins_b (S.ELet x v) body body' ->
+  let p := S.mkProg (ms1 ++ (n, rt, u, body) :: ms2) mn in
+  let p' := S.mkProg (ms1 ++ (n, rt, u, body') :: ms2) mn in
+  S.errors true p' = S.errors true p /\ (S.accepts true p = true <-> S.accepts true p' = true).
+Proof.
+  intros ms1 n rt u body body' ms2 mn x v Hv Hn Hi p p'.
+  assert (H : S.errors true p' = S.errors true p)
+    by (unfold S.errors, p, p'; now rewrite (SP.unused_local_method ms1 n rt u body body' ms2 mn x v)).
+  split; [exact H|]. unfold S.accepts. rewrite H. tauto.
+Qed.
+Print Assumptions C12_unused_local_scoped.
+
+(* the same in the top-level statements: before any statement at any depth, or at the very end *)
+Theorem C12_unused_local_scoped_main : forall ms mn mn' x v,
+  S.closed_value v = true -> ~ In x (S.block_names mn) ->
+  (S.ins_b (S.ELet x v) mn mn' \/ mn' = S.insert_at (S.block_len mn) (S.ELet x v) mn) ->
+  let p := S.mkProg ms mn in
+  let p' := S.mkProg ms mn' in
+  S.errors true p' = S.errors true p /\ (S.accepts true p = true <-> S.accepts true p' = true).
+Proof.
+  intros ms mn mn' x v Hv Hn Hi p p'.
+  assert (H : S.errors true p' = S.errors true p) by (apply (SP.unused_local_main ms mn mn' x v); assumption).
+  split; [exact H|]. unfold S.accepts. rewrite H. tauto.
+Qed.
+Print Assumptions C12_unused_local_scoped_main.
+
+(* checking any expression or block - closure literals with their own catch scope and do/catch blocks
+   included - leaves returnType, throwType, mode, the inference flags and the catch-scope STACK exactly
+   as they were (the stack is saved, emptied, pushed, and put back by checkMethod; pushed and popped by
+   do/catch) *)
+Theorem C12_scopes_restored : forall sigs,
+  (forall e s, S.sregs (fst (S.check_expr true sigs s e)) = S.sregs s) /\
+  (forall b s t0, S.sregs (fst (S.check_block true sigs s t0 b)) = S.sregs s).
+Proof. exact SP.regs_restored. Qed.
+Print Assumptions C12_scopes_restored.
+
+(* a self-contained closure literal is checked without a diagnostic and without any effect on the
+   checker state, whatever the state (in particular whatever the catch-scope stack) *)
+Theorem C12_closed_value_inert : forall sigs v s,
+  S.closed_value v = true -> fst (S.check_expr true sigs s v) = s.
+Proof. exact SP.closed_value_check. Qed.
+Print Assumptions C12_closed_value_inert.
+
+(* ---- non-vacuity of the scoped statements ---- *)
+Definition blk (l : list S.expr) : S.block := fold_right S.BCons S.BNil l.
+Definition fmt : S.exc := 0%N.
+Definition oor : S.exc := 1%N.
+(* |q: String|: String ! FormatError -> q *)
+Definition clos_throws : S.expr := S.EClos [(9%N, S.TStr)] (Some S.TStr) (Some [fmt]) (blk [S.EVar 9%N]).
+(* -> do throw FormatError(..); 1 catch FormatError() 2 end *)
+Definition clos_docatch : S.expr :=
+  S.EClos [] None None (blk [S.EDo (blk [S.EThrow fmt; S.ELit S.TInt]) [fmt] (blk [S.ELit S.TInt])]).
+(* -> (||! FormatError -> throw FormatError(..)) *)
+Definition clos_nested : S.expr :=
+  S.EClos [] None None (blk [S.EClos [] None (Some [fmt]) (blk [S.EThrow fmt])]).
+
+Example C12_scoped_class_nonvacuous :
+  S.closed_value clos_throws = true /\ S.closed_value clos_docatch = true /\ S.closed_value clos_nested = true /\
+  S.closed_value (S.EClos [] None (Some [fmt]) (blk [S.EThrow oor])) = false /\
+  S.closed_value (S.EClos [] None None (blk [S.EVar 3%N])) = false.
+Proof. vm_compute. auto. Qed.
+
+(* def fetch: Int ! OutOfRangeError; throw OutOfRangeError(..); 1; end
+   def total: Int; do a := fetch(); b := fetch(); a catch OutOfRangeError() 1 end; end      total()  *)
+Definition m_fetch : S.mdef := (0%N, S.TInt, [oor], blk [S.EThrow oor; S.ELit S.TInt]).
+Definition total_body (mid : list S.expr) : S.block :=
+  blk [S.EDo (blk (S.ELet 2%N (S.EMeth 0%N) :: mid ++ [S.ELet 3%N (S.EMeth 0%N); S.EVar 2%N])) [oor] (blk [S.ELit S.TInt])].
+
+Example C12_scoped_nonvacuous :
+  (* the edit of the theorem: the throw-annotated closure between the two throwing calls of the do body *)
+  S.ins_b (S.ELet 7%N clos_throws) (total_body []) (total_body [S.ELet 7%N clos_throws]) /\
+  ~ In 7%N (S.block_names (total_body [])) /\
+  S.accepts true (S.mkProg [m_fetch; (1%N, S.TInt, [], total_body [])] (blk [S.EMeth 1%N])) = true /\
+  S.accepts true (S.mkProg [m_fetch; (1%N, S.TInt, [], total_body [S.ELet 7%N clos_throws])] (blk [S.EMeth 1%N])) = true /\
+  (* the catch scopes decide: without the do/catch the call is rejected, a wrong class is rejected *)
+  S.accepts true (S.mkProg [m_fetch; (1%N, S.TInt, [], blk [S.EMeth 0%N])] (blk [S.EMeth 1%N])) = false /\
+  S.accepts true (S.mkProg [m_fetch; (1%N, S.TInt, [fmt], blk [S.EMeth 0%N])] (blk [S.EMeth 1%N])) = false /\
+  S.accepts true (S.mkProg [m_fetch; (1%N, S.TInt, [oor], blk [S.EMeth 0%N])] (blk [])) = true /\
+  (* a throwing closure called outside / inside a scope; an inferred throw type *)
+  S.accepts true (S.mkProg [m_fetch; (1%N, S.TInt, [], blk [S.ELet 2%N (S.EClos [] None None (blk [S.EMeth 0%N])); S.ECall (S.EVar 2%N)])] (blk [])) = false /\
+  S.accepts true (S.mkProg [m_fetch; (1%N, S.TInt, [oor], blk [S.ELet 2%N (S.EClos [] None None (blk [S.EMeth 0%N])); S.ECall (S.EVar 2%N)])] (blk [])) = true.
+Proof.
+  split. { cbn. apply S.ins_inside, S.ins_do_body, S.ins_later, S.ins_here. }
+  split. { cbn. intros [H|[H|[H|H]]]; try discriminate; exact H. }
+  vm_compute. repeat split; reflexivity.
+Qed.
